@@ -1823,6 +1823,9 @@ func readNextCommand(packet []byte, argsIn [][]byte, msg *Message, wr io.Writer)
 					line = packet[:i+1]
 					break
 				}
+				// the first line ends with a bare LF: an inline command,
+				// not an HTTP request line
+				return redcon.ReadNextCommand(packet, args)
 			}
 		}
 		if len(line) == 0 {
